@@ -381,3 +381,48 @@ if __name__ == '__main__':
     F = Facts(sys.argv[1])
     for f in F.find_fns(sys.argv[2]) if len(sys.argv) > 2 else []:
         pp_fn(f)
+
+
+# ---------------------------------------------------------------- constant items
+def item_bytes(it):
+    """raw little-endian memory image of a const/static item (None if not evaluable)"""
+    if it is None:
+        return None
+    if 'bytes' in it:
+        return bytes.fromhex(it['bytes'])
+    v = it.get('value')
+    if not v:
+        return None
+    if v.get('k') == 'int':
+        return int(v['bits']).to_bytes(v['size'], 'little')
+    if 'bytes' in v:
+        return bytes.fromhex(v['bytes'])
+    return None
+
+
+def item_int(it):
+    b = item_bytes(it)
+    return None if b is None else int.from_bytes(b, 'little')
+
+
+def layout_leaf_offsets(lay, prefix=''):
+    """yield (path, offset, size) for every field of a struct layout whose type is an array of scalars or a scalar"""
+    k = lay['k']
+    if k == 'struct':
+        for f in lay['fields']:
+            p = (prefix + '.' if prefix else '') + f['name']
+            sub = f['lay']
+            if sub['k'] == 'struct':
+                for (pp, off, sz) in layout_leaf_offsets(sub, p):
+                    yield pp, f['off'] + off, sz
+            else:
+                yield p, f['off'], sub['size']
+    else:
+        yield prefix, 0, lay['size']
+
+
+def _facts_items_by_suffix(self, suffix):
+    return [v for k, v in self.items.items() if k == suffix or k.endswith('::' + suffix)]
+
+
+Facts.items_by_suffix = _facts_items_by_suffix
